@@ -177,6 +177,12 @@ def pdu_task(ck, task):
             it.setattr(obj, "file_store_responses", T("list", (), ty=("list", None)), env, None, None)
         check("fault_location := None", ("fault location", [("fault_location", lambda it, env: NONE)]), "two responses",
               ref_fix=None) if False else None
+        # the two condition codes for which the fault location is not transmitted: packed octets and lengths agree
+        check("fault_location := TLV (under NO_ERROR)", ("fault location omitted", [("fault_location", ent)]), "fault location omitted")
+        check("fault_location := TLV (under UNSUPPORTED_CHECKSUM_TYPE)", ("fault location omitted (unsupported checksum type)", [("fault_location", ent)]),
+              "fault location omitted (unsupported checksum type)")
+        check("condition_code := UNSUPPORTED_CHECKSUM_TYPE (with a fault location)", ("fault location omitted", [("condition_code", lambda it, env: CF.enumc(P, f"{CF.DEFS}.ConditionCode", 0b1011))]),
+              "fault location omitted (unsupported checksum type)")
     elif kind_name == "Metadata":
         def opts(it, env):
             return T("list", tuple(PD.generic_tlv(it, env, P, n)[0] for n in (1, 2)), ty=("list", None))
@@ -288,6 +294,9 @@ def run(ck):
         ck.verdict("Q-EQ", f"{short}.__eq__", "equality is the same before and after pack() (the CRC cache is not compared)", [] if e_before == e_after else [f"{show(e_after)[:80]}"], "identical terms")
     # ---------------------------------------------------------------- refused mutations leave the object unchanged
     refused_setters(ck, P)
+    # every recomputed PDU length is stored through PduHeader.pdu_data_field_len: what it accepts must fit the 16-bit field
+    from .c05 import check_data_field_len_bound
+    check_data_field_len_bound(ck, P)
     # ---------------------------------------------------------------- USLP
     U = "uslp.frame"
     from .c17 import mk_header
